@@ -12,7 +12,7 @@ import ast
 
 from ..model import src
 from ..report import Report, key_of
-from ..terms import NONE_T, dag_nodes, has_opaque, is_stringy, pretty
+from ..terms import NONE_T, assume, dag_nodes, has_opaque, is_stringy, normalise, pretty
 from .common import subst_single_assign, TRUSTED_BASE, where
 from .keyterm import KeyTerms, all_conj, branches, walk_guarded
 
@@ -127,6 +127,31 @@ def repr_findings(term, str_params=()):
     return out
 
 
+def check_default_exemption(A, R, rid, K):
+    """AbstractParameter.repr drops a parameter for its default exactly when the flag is set and the typed value equals the declared default (shared with C03)."""
+    # the default-value exemption is exactly "flag set and typed value == declared default": any narrower test (extra conjunct) keeps a defaulted
+    # parameter in the key, any wider one (comparison of renderings, of raw config text) drops parameters whose value differs from the default
+    own = K.PARAM_REPR_OWN()
+    ign_c, dp_c = ('attr', ('self',), 'ignore_persistence'), ('attr', ('self',), 'dont_persist_default_value')
+    rest = assume(own, lambda c_: False if c_ == ign_c else (True if c_ == dp_c else None))
+    off = assume(own, lambda c_: False if c_ in (ign_c, dp_c) else None)
+    from ..types import Ctx as _Ctx
+    vterm = normalise(A.sym.expr_term(ast.parse('self.value', mode='eval').body, _Ctx(K.f_param_repr, ('inst', K.f_param_repr.cls)))) if K.f_param_repr.cls is not None else None
+    dterm = ('attr', ('self',), 'default')
+    def typed_value(x):
+        # `self.value` (kept as a reference, or inlined: Path(self._value) for dtype Path, else self._value)
+        return x == vterm or (x[0] in ('user', 'ref') and str(x[1]).endswith('.value')) or \
+            (x[0] == 'cond' and x[3] == ('attr', ('self',), '_value') and x[2][0] == 'call' and x[2][1].split('.')[-1] == 'Path' and x[2][2] == (('attr', ('self',), '_value'),))
+    exact = rest[0] == 'cond' and rest[1][0] == 'cmp' and rest[1][1] in ('Eq', 'NotEq') and \
+        ((typed_value(normalise(rest[1][2])) and normalise(rest[1][3]) == dterm) or (typed_value(normalise(rest[1][3])) and normalise(rest[1][2]) == dterm)) and \
+        (rest[2] if rest[1][1] == 'Eq' else rest[3]) == NONE_T
+    always_text = off[0] != 'cond' and off != NONE_T
+    R.check(exact and always_text, rid, 'AbstractParameter.repr: default-value exemption', key_of('default-exact', exact, always_text, pretty(rest[1])[:80] if rest[0] == 'cond' else pretty(rest)[:80]),
+            'dropped exactly when the flag is set and the typed value equals the declared default',
+            f'with dont_persist_default_value set the parameter is dropped when `{pretty(rest[1])[:120] if rest[0] == "cond" else pretty(rest)[:120]}` - not exactly when its typed value equals its default: '
+            'a defaulted parameter stays in the key (adding the parameter to a task moves existing results) or a non-default value is left out (different computations share a key)', where=where(K.f_param_repr))
+
+
 def run(A, R: Report, thorough: bool):
     R.explanation = ('The text that is hashed into the storage key is evaluated symbolically (functions, properties and closures inlined) and analysed as a term: ordering of '
                      'every iteration that reaches the text, builtin repr() leaves and their type guards, provenance of every hole, guards of every text-returning path. '
@@ -198,19 +223,18 @@ def run(A, R: Report, thorough: bool):
 
     # ---- R02.4
     R.rule('R02.4', 'a parameter contributes text only if not ignore_persistence and not (dont_persist_default_value and value == default); None reprs are dropped; AutoParameterObject skips ignored/default args', floor=4)
-    text_leaves = [(leaf, g) for leaf, g in branches(K.PARAM_REPR_OWN()) if leaf != NONE_T]
-    R.require(text_leaves, 'anchor: AbstractParameter.repr has no text-returning path')
-    for leaf, g in text_leaves:
-        conj = all_conj(g)
-        ign = any(c[0] == 'attr' and c[2] == 'ignore_persistence' and not pol for c, pol in conj)
-        dflt = any(not pol and c[0] == 'and' and any(y[0] == 'attr' and y[2] == 'dont_persist_default_value' for y in c[1]) and any(y[0] == 'cmp' and y[1] == 'Eq' and any(z[0] == 'attr' and z[2] == 'default' for z in y[2:]) for y in c[1])
-                   for c, pol in list(g) + conj) or \
-            (any(c[0] == 'attr' and c[2] == 'dont_persist_default_value' and not pol for c, pol in conj))
-        # equivalent nested form: if dont_persist: if value == default: return None
-        if not dflt:
-            dflt = any(c[0] == 'cmp' and c[1] == 'Eq' and not pol and any(z[0] == 'attr' and z[2] == 'default' for z in c[2:]) for c, pol in conj)
-        R.check(ign and dflt, 'R02.4', 'AbstractParameter.repr', key_of('flags', ign, dflt), 'text only when both flags allow it',
-                f'a parameter can contribute to the key although {"ignore_persistence is set" if not ign else "it equals its default and dont_persist_default_value is set"}', where=where(K.f_param_repr))
+    own4 = K.PARAM_REPR_OWN()
+    R.require(any(leaf != NONE_T for leaf, g in branches(own4)), 'anchor: AbstractParameter.repr has no text-returning path')
+    ign_c4, dp_c4 = ('attr', ('self',), 'ignore_persistence'), ('attr', ('self',), 'dont_persist_default_value')
+    # decided on the term under assumptions, so that the case analysis may be written in any shape (early returns, a flag updated in steps, ...)
+    ign = assume(own4, lambda c_: True if c_ == ign_c4 else None) == NONE_T
+
+    def _eq_default(c_):
+        return c_[0] == 'cmp' and c_[1] in ('Eq', 'NotEq') and any(z == ('attr', ('self',), 'default') for z in c_[2:])
+    dflt = assume(own4, lambda c_: False if c_ == ign_c4 else (True if c_ == dp_c4 else ((c_[1] == 'Eq') if _eq_default(c_) else None))) == NONE_T
+    R.check(ign and dflt, 'R02.4', 'AbstractParameter.repr', key_of('flags', ign, dflt), 'text only when both flags allow it',
+            f'a parameter can contribute to the key although {"ignore_persistence is set" if not ign else "it equals its default and dont_persist_default_value is set"}', where=where(K.f_param_repr))
+    check_default_exemption(A, R, 'R02.4', K)
     reg_maps = [x for x in dag_nodes(K.REGISTRY) if x[0] == 'map']
     drop_none = any(x[4] is not None and any(y[0] == 'cmp' and y[1] in ('IsNot', 'NotEq') and NONE_T in y[2:] for y in dag_nodes(x[4])) for x in reg_maps)
     R.check(drop_none, 'R02.4', 'ParameterRegistry.repr', key_of('drop-none'), 'None reprs filtered', 'parameters excluded from persistence (repr None) are not filtered out of the registry repr', where=where(K.f_registry))
